@@ -12,6 +12,9 @@ LEVEL = "other"
 
 
 def run(prog, chk, tier):
+    from rules import state as _state
+
+    _state.library_state_rules(prog, chk, "C03")
     m = bf3.model(prog)
     chk.explanation = ("The value returned by Bf3File.to_binary (dir_to_binary inlined, both passes) is interpreted in a byte-layout domain "
                        "(constants, fixed-width integers, opaque strings, MAC calls, repetitions) and must equal the independently written layout table; "
